@@ -152,6 +152,11 @@ def _dom_rem_dup(tier, seed):
         for t in itertools.product((5, 1), repeat=n):
             for fl in itertools.product((2, 0, 1), repeat=n):
                 yield dict(args=[np.array(t), np.array(fl), False])
+                if n <= 3:
+                    # flag arrays of other kinds: unsigned (negation wraps), float, boolean
+                    for dt in ("u1", "u2", "f4"):
+                        yield dict(args=[np.array(t), np.array(fl, dtype=dt), False], key="%r flags %s %r" % (t, dt, fl))
+                    yield dict(args=[np.array(t), np.array(fl) > 0, False], key="%r flags bool %r" % (t, fl))
     rng = random.Random(seed)
     for a in _dedup_arrays(tier, seed):
         if a.size >= 2:
